@@ -18,5 +18,9 @@ package deepcopy
 //@ func OrderedMap
 //@   trusted
 //@   pure allocates
-//@   ensures result != nil && iscopy(result, orig)                   [C08]
-//@   ensures fresh(result)                                           [C11]
+//@   nilable orig result
+// a missing map stays missing and an EMPTY map is copied to an empty map of its own, not to a missing one (the
+// wrappers - Vars.Merge first of all - treat a missing map as "nothing to merge into" and return silently)
+//@   ensures (result == nil) <==> (orig == nil)                      [C08,C10]
+//@   ensures orig != nil ==> iscopy(result, orig)                    [C08]
+//@   ensures orig != nil ==> fresh(result)                           [C11]
